@@ -8,6 +8,7 @@ import (
 
 	"github.com/tsenart/vegeta/v12/internal/simrt"
 	vegeta "github.com/tsenart/vegeta/v12/lib"
+	"github.com/tsenart/vegeta/v12/lib/plot"
 )
 
 type action struct {
@@ -366,6 +367,18 @@ func (s *attackSim) observeClose() {
 				break
 			}
 		}
+		// the consumer named in the property: the plot package fed in completion (= consumption) order
+		if len(s.consumedOrder) > 0 {
+			p := plot.New(plot.Title("sim"))
+			for _, q := range s.consumedOrder {
+				r := s.seen[q]
+				vr := &vegeta.Result{Attack: r.Attack, Seq: r.Seq, Timestamp: time.Unix(0, r.TS), Latency: time.Duration(r.Latency), Error: r.Error}
+				if err := p.Add(vr); err != nil {
+					s.fail("C05", "C05.plot-rejects", "the plot package rejects the results of this attack fed in completion order: %v", err)
+					break
+				}
+			}
+		}
 		s.enterDrain("closed")
 	}
 }
@@ -378,6 +391,7 @@ func (s *attackSim) observeResult(r *resultSnap, now time.Duration) {
 		s.fail("C02", "C02.seq-dup", "sequence number %d delivered twice", r.Seq)
 	}
 	s.seen[r.Seq] = *r
+	s.consumedOrder = append(s.consumedOrder, r.Seq)
 	s.C++
 	if s.C > s.S {
 		s.fail("C02", "C02.result-without-hit", "%d results delivered for %d started hits", s.C, s.S)
